@@ -168,6 +168,23 @@ def _check_main(run, P):
         run.minimum.pop(r_, None)
 
 
+def store_helpers(P):
+    """Methods of the interpreter that bind <first parameter> to <second parameter> in the
+    variable store (and may keep books about it): a call of one is a store."""
+    C = P.cls(INTERP)
+    out = set()
+    for name, m in C.methods.items():
+        ps = m.params[1:]
+        if len(ps) < 2:
+            continue
+        for x in ast.walk(m.node):
+            if isinstance(x, ast.Assign) and any(
+                    isinstance(t, ast.Subscript) and dotted(t.value) == "self.context"
+                    and dotted(t.slice) == ps[0] for t in x.targets) and dotted(x.value) == ps[1]:
+                out.add(f"self.{name}")
+    return out
+
+
 def _alias(run, src_rule, dst_rule, thunk):
     """Evaluate a rule function of another property under this property's id."""
     had = src_rule in run.rule_docs
@@ -217,6 +234,8 @@ def _arrays(run, P):
                        for b in lp.body for y in ast.walk(b))
             binds = any(isinstance(y, ast.Assign) and any(
                 isinstance(t, ast.Subscript) and dotted(t.value) == "self.context" for t in y.targets)
+                for b in lp.body for y in ast.walk(b)) or any(
+                isinstance(y, ast.Call) and dotted(y.func) in store_helpers(P)
                 for b in lp.body for y in ast.walk(b))
             if evals and recs and binds:
                 rec_in_loop = True
@@ -301,11 +320,15 @@ def _effects(run, P):
         return any(isinstance(x, ast.Call) and isinstance(x.func, ast.Name)
                    and any(isinstance(k, ast.Starred) for k in x.args) for x in xs)
 
+    helpers_ = store_helpers(P)
+
     def store(st, xs):
-        return isinstance(st, ast.Assign) and any(
+        return (isinstance(st, ast.Assign) and any(
             isinstance(t, ast.Subscript) and (dotted(t.value) == "self.context" or (
                 isinstance(t.value, ast.Subscript) and dotted(t.value.value) == "self.context"))
-            for t in st.targets)
+            for t in st.targets)) or (
+            isinstance(st, ast.Expr) and isinstance(st.value, ast.Call)
+            and dotted(st.value.func) in helpers_)
 
     def returns_event(st, xs):
         return isinstance(st, ast.Return) and st.value is not None \
@@ -813,6 +836,14 @@ def _binding(run, P):
             chain_b = _chain_of_body(fn)
             ok = chain_p is not None and chain_p == chain_b
             desc = f"pattern chain {chain_p} vs implementation chain {chain_b}"
+            body_ = [s_ for s_ in fn.node.body if not isinstance(s_, (ast.Import, ast.ImportFrom))
+                     and not (isinstance(s_, ast.Expr) and isinstance(s_.value, ast.Constant))]
+            if not ok and (chain_p is None or chain_b is None or len(body_) != 1):
+                # a pattern that goes through a helper of the generated class, or an
+                # implementation with more than one statement (a fast path in front of the
+                # same computation, say): agreement is not a matter of comparing two chains
+                raise AnalysisError(f"{ident}: pattern {pat!r} and {fn.name} are not of the "
+                                    f"comparable one-expression form; not decided")
         run.ob("C01.binding", bfr, pnode, ok,
                construct=f"{ident}: {pat!r} ({desc})",
                why="the pattern must call the same function, on all the arguments, "
